@@ -646,7 +646,12 @@ class DCM(np.ndarray):
         # for arbitrarily small angles (arccos of the trace is not)
         sin_theta = 0.5*np.linalg.norm([self.A[2, 1]-self.A[1, 2], self.A[0, 2]-self.A[2, 0], self.A[1, 0]-self.A[0, 1]])
         if sin_theta == 0.0:
-            return np.zeros((3, 3))
+            if self.A.trace() > 0.0:
+                return np.zeros((3, 3))
+            # Half-turn (R is symmetric): R = 2uu^T - I yields the axis u
+            uuT = 0.5*(self.A + np.identity(3))
+            u = uuT[:, np.argmax(np.diag(uuT))]
+            return -np.pi*skew(u/np.linalg.norm(u))
         theta = np.arctan2(sin_theta, (self.A.trace()-1)/2)
         nom = theta * (self.A.T - self.A)
         denom = 2*sin_theta
